@@ -299,6 +299,8 @@ def insert(a, idx, v, axis=None):
 @sym_or_real("delete")
 def delete(a, idx, axis=None):
     idx = conc_index(idx) if isinstance(idx, (SymArray, SV)) else idx
+    if isinstance(idx, (list, tuple)):
+        idx = _np.array([int(i) for i in idx], dtype=_np.int64)
     return SymArray(_np.delete(a.vals, idx, axis=axis), a.dtype)
 
 
@@ -316,10 +318,11 @@ def tile(a, reps):
 
 
 @sym_or_real("pad")
-def pad(a, width, mode="constant", constant_values=0, **k):
+def pad(a, pad_width, mode="constant", constant_values=0, **k):
     if mode != "constant":
         raise UnsupportedSymbolicOp(f"pad mode {mode}")
-    out = _np.pad(a.vals, width, mode="constant", constant_values=0)
+    a = asanyarray(a)
+    out = _np.pad(a.vals, pad_width, mode="constant", constant_values=0)
     if constant_values != 0:
         raise UnsupportedSymbolicOp("pad with non-zero constant")
     return SymArray(out, a.dtype)
